@@ -152,12 +152,16 @@ func init() {
 			return &cell
 		},
 		"(*pgregory.net/rand.Rand).Float64": func(fr *frame, args []value) value {
-			s := fr.i.nondet("f64", types.Uint64, "rand.Float64").(sym)
-			x := sym{t: s.t, k: types.Float64}
-			c := fr.i.ctx
-			ft := fr.i.fpTerm(x)
-			fr.i.assume(c.And(c.FPCmp("fp.leq", fr.i.fpTerm(float64(0)), ft), c.FPCmp("fp.lt", ft, fr.i.fpTerm(float64(1)))))
-			return x
+			// exactly what the generator returns: k / 2^53 with k in [0, 2^53), kept as a fixed-point
+			// exact float so that products with powers of two and comparisons stay integer arithmetic
+			fr.i.countDraw()
+			i := fr.i
+			hi := new(big.Int).Sub(pow2(53), big.NewInt(1))
+			v := i.freshVar("f64", smt.Int)
+			i.path.nondets = append(i.path.nondets, nondetVar{Name: "rand.Float64", Kind: "f64", t: v, fix: 53})
+			c := i.ctx
+			i.assume(c.And(c.ILe(c.IntConst64(0), v), c.ILe(v, c.IntConst(hi))))
+			return sym{t: v, k: types.Float64, lo: big.NewInt(0), hi: hi, sc: 53}
 		},
 		"(*pgregory.net/rand.Rand).Float32": func(fr *frame, args []value) value {
 			s := fr.i.nondet("f32", types.Uint32, "rand.Float32").(sym)
@@ -610,13 +614,25 @@ var _ = fmt.Sprint
 var _ *ssa.Function
 
 // randBelow models Uint64n/Uint32n: 0 for n == 0, otherwise an arbitrary value below n.
+func (i *Interp) countDraw() {
+	i.path.randDraws++
+	if m := i.cfg.MaxRandDraws; m > 0 && i.path.randDraws > m {
+		panic(pathAbort{"bound-cut", fmt.Sprintf("more than %d random draws on one path (max_rand_draws)", m)})
+	}
+}
+
 func (i *Interp) randBelow(n value, k types.BasicKind, kind string) value {
 	c := i.ctx
+	i.countDraw()
 	if !isSym(n) {
 		if rawBits(n) == 0 {
 			// the tape still records a draw so that native replay stays aligned
 			i.nondet(kind, k, "rand.n")
 			return mkConcreteInt(k, 0)
+		}
+		if nb := rawBits(n); nb <= 1<<31 {
+			// small concrete bound: ranged mathematical integer (converts exactly to float64)
+			return i.nondetRange(k, big.NewInt(0), new(big.Int).SetUint64(nb-1), kind)
 		}
 	}
 	x := i.nondet(kind, k, "rand.n").(sym)
